@@ -42,6 +42,12 @@ def templates(backend: str, s) -> List[str]:
         f"ds.Select(lambda e: {J}.Count() > 2 and {J}[2].pt() > 5.0)",
         f"ds.Select(lambda e: ({J}[0].pt() if {J}.Count() > 0 else 0.0) + ({K}[0].pt() if {K}.Count() > 0 else 0.0))",
         f"ds.Select(lambda e: {J}.Select(lambda j: j.trkPts()[0]))",
+        # a guarded filter whose result feeds SEVERAL columns: the filter (and its guard) is translated once per use
+        f"ds.Select(lambda e: {J}.Where(lambda j: j.trkPts().Count() > 0 and j.trkPts().First() > 5.0)).Select(lambda g: (g.Select(lambda j: j.pt()), g.Select(lambda j: j.eta())))",
+        f"ds.Select(lambda e: {J}.Where(lambda j: j.tracks().Count() > 1 and j.tracks()[1].pt() > 5.0)).Select(lambda g: {{'a': g.Select(lambda j: j.pt()), 'b': g.Count(), 'c': g.Select(lambda j: j.eta())}})",
+        f"ds.Select(lambda e: {J}.Where(lambda j: j.trkPts().Count() == 0 or j.trkPts().First() > 5.0)).Select(lambda g: (g.Count(), g.Select(lambda j: j.pt()), g.Select(lambda j: j.trkPts().Count())))",
+        f"ds.Select(lambda e: {J}.Where(lambda j: (j.trkPts().First() if j.trkPts().Count() > 0 else 0.0) > 5.0)).Select(lambda g: (g.Select(lambda j: j.pt()), g.Select(lambda j: j.eta()), g.Count()))",
+        f"ds.SelectMany(lambda e: {J}.Where(lambda j: j.tracks().Count() > 0 and j.tracks().First().pt() > 5.0)).Select(lambda j: (j.pt(), j.eta(), j.tracks().First().pt()))",
         # a literal flag (a captured Python variable) AFTER a partial operation decides the test but not whether the operation runs
         f"ds.Where(lambda e: {J}.First().pt() > 30.0 or True).Select(lambda e: {J}.Count())",
         f"ds.Where(lambda e: {J}.First().pt() > 30.0 and False).Select(lambda e: {J}.Count())",
